@@ -722,7 +722,7 @@ def dom2(m, run):
     (u, v, w) order otherwise).  Decided by interpreting the method on an abstract object whose knots are labelled tokens - whatever the
     spelling (named locals, per-direction loop, forwarding)."""
     cases = (('Curve', 1, (2,), (5,)), ('Surface', 2, (2, 1), (4, 5)), ('Volume', 3, (1, 2, 3), (3, 5, 4)))
-    for cname, pdim, degs, sizes in cases:
+    for cname, pdim, degs, sizes, stale in [c + (st_,) for c in cases for st_ in (False, True)]:
         key = 'BSpline.%s.evaluate' % cname
         kvs = [[Tok('DEF', dep=frozenset([(d, i)])) for i in range(n + p + 1)] for d, (p, n) in enumerate(zip(degs, sizes))]
         got = {}
@@ -735,7 +735,7 @@ def dom2(m, run):
         for s_ in sizes:
             total *= s_
         attrs = dict(_degree=list(degs), _knot_vector=kvs, _control_points=pts(total, 3), _control_points_size=list(sizes), _kv_normalize=False,
-                     _evaluator=Bag('evaluator', evaluate=Py(ev, 'evaluate')), data={}, _eval_points=[], _cache={}, _bounding_box=[], _control_points2D=[],
+                     _evaluator=Bag('evaluator', evaluate=Py(ev, 'evaluate')), data={}, _eval_points=[[DEF(), DEF(), DEF()]] if stale else [], _cache={}, _bounding_box=[], _control_points2D=[],
                      _delta=[0.1] * pdim, _array_type=None, _rational=False, _pdim=pdim, _dimension=3, _precision=18, _tsl_component=Bag('tessellator', reset=Py(lambda sk, node, *a, **k: None, 'reset')), _trims=[])
         obj = Bag(('BSpline', cname), **attrs)
         sk = SK(m, dict(STD_ABSTRACTED))
@@ -750,7 +750,10 @@ def dom2(m, run):
             def lab(x):
                 return next(iter(x.dep)) if isinstance(x, Tok) and x.dep and len(x.dep) == 1 else x
             st, sp = got.get('start'), got.get('stop')
-            if st is None or sp is None:
+            if not got:
+                res = ('evaluate() returns without asking the evaluator%s' % (' when evaluated points are already stored: the points of an earlier evaluate(start=..., stop=...) over a '
+                                                                              'sub-range survive a plain evaluate() and keep feeding evalpts, the bounding box and the tessellation' if stale else ''))
+            elif st is None or sp is None:
                 res = 'the evaluator is called without start/stop (%s): its own defaults, 0.0 and 1.0, replace the domain ends' % sorted(k for k in got if not k.startswith('__'))
             else:
                 st = [st] if pdim == 1 and not isinstance(st, (list, tuple)) else list(st)
@@ -762,7 +765,7 @@ def dom2(m, run):
                     def show(v):
                         return ['knotvector_%s[%s]' % ('uvw'[x[0]], x[1]) if isinstance(x, tuple) else repr(x) for x in v]
                     res = 'default range is start=%s stop=%s, the domain is start=%s stop=%s' % (show(gs), show(ge), show(want_s), show(want_e))
-        run.ob('DOM2.evaluator-receives-the-domain-ends', key, res is None, 'start = knot[degree], stop = knot[-(degree + 1)] of every direction' if res is None else res,
+        run.ob('DOM2.evaluator-receives-the-domain-ends', key + (' :: with evaluated points already stored' if stale else ''), res is None, 'start = knot[degree], stop = knot[-(degree + 1)] of every direction' if res is None else res,
                'geomdl/BSpline.py in %s' % key)
 
 
@@ -2160,7 +2163,7 @@ def rq2(m, run):
     # ---- surface
     fs = m.func('evaluators.SurfaceEvaluatorRational.derivatives')
     bad = []
-    orders = range(0, 3 if run.tier != 'thorough' else 4)
+    orders = range(0, 4 if run.tier != 'thorough' else 5)
     wpos = [(k, l) for k in range(3) for l in range(3 - k) if (k, l) != (0, 0)]
     cases = [(order, ()) for order in orders] + [(2, z) for r in ((1, 2) if run.tier != 'thorough' else (1, 2, 3, 4, 5)) for z in it.combinations(wpos, r)]
     for order, wz in cases:
@@ -2697,8 +2700,10 @@ def ag52(m, run, rule='AG5.serial-parallel'):
     the predicate of that voxel with the same points and the same tolerance"""
     st, mp = m.func('_voxelize.find_inouts_st'), m.func('_voxelize.find_inouts_mp')
     bad = []
-    cases = [(nvox, procs) for nvox in (1, 5, 8, 27) for procs in (2, 4)]
-    for nvox, procs in cases:
+    optsets = ({'tol': 0.125}, {'padding': 0.25}, {'tol': 0.125, 'padding': 0.25}, {})
+    cases = [(nvox, procs, oi) for nvox in (1, 5, 8, 27) for procs in (2, 4) for oi in range(len(optsets)) if oi == 0 or nvox == 5]
+    for nvox, procs, oi in cases:
+        opts = optsets[oi]
         grid = [('voxel', i) for i in range(nvox)]
         ptsarr = [('pts',)]
         outs = {}
@@ -2717,7 +2722,7 @@ def ag52(m, run, rule='AG5.serial-parallel'):
             ab[('_utilities', 'pool_context')] = ab[('_voxelize', 'pool_context')]
             sk = SK(m, ab)
             try:
-                out = sk.call(fi, [list(grid), ptsarr], {'tol': 0.125, 'num_procs': procs})
+                out = sk.call(fi, [list(grid), ptsarr], dict(opts, num_procs=procs))
             except Violation as v:
                 why = '%s: %s %s' % (fi.key, v.msg, v.where())
                 break
@@ -2736,13 +2741,18 @@ def ag52(m, run, rule='AG5.serial-parallel'):
                     why = '%s tests the voxels %s' % (fname, sorted(a[0][1] for a in asked)[:10])
                 elif any(a[1] is not ptsarr for a in asked):
                     why = '%s does not hand the data points to the predicate' % fname
-                elif any(a[2] != 0.125 for a in asked):
-                    why = '%s calls the predicate with tolerance %r, the caller asked for 0.125' % (fname, asked[0][2])
+                elif 'tol' in opts and 'padding' not in opts and any(a[2] != 0.125 for a in asked):
+                    why = '%s calls the predicate with tolerance %r, the caller asked for tol=0.125' % (fname, asked[0][2])
                 if why:
                     break
+            if why is None:
+                ts, tm = {a[2] for a in outs['st'][1]}, {a[2] for a in outs['mp'][1]}
+                if ts != tm:
+                    why = 'called with the options %s the serial variant tests the voxels with tolerance %s and the parallel one with %s: the result depends on num_procs' % (
+                        sorted(opts.items()), sorted(map(str, ts)), sorted(map(str, tm)))
         if why:
             bad.append(((nvox, procs), why))
-    run.ob(rule, '_voxelize.find_inouts_st / find_inouts_mp :: %d (grid size, processes) cases' % len(cases), not bad,
+    run.ob(rule, '_voxelize.find_inouts_st / find_inouts_mp :: %d (grid size, processes, options) cases' % len(cases), not bad,
            'one flag per voxel in voxel order, same predicate arguments in both variants' if not bad else
            '%d voxels, %d processes: %s   [%d of %d cases]' % (bad[0][0][0], bad[0][0][1], bad[0][1], len(bad), len(cases)), 'geomdl/_voxelize.py')
 
@@ -3164,3 +3174,141 @@ def ks2(m, run, rule='KS2.knot-setters-respect-normalisation'):
                 run.ob(rule, key, why is None, 'stores %s' % ('normalize(given)' if normalize else 'the given knots') if why is None else why, 'geomdl/%s.py:%d in %s' % (fi.mod, fi.node.lineno, fi.key))
     if n < 12:
         raise AnalysisError('KS2: only %d knot vector setter cases found' % n)
+
+
+# ====================================================================================== C04 / C06: insertion and removal exactly
+def kir3(m, run, what=('insert', 'remove')):
+    """KI3 / KR3: helpers.knot_insertion and helpers.knot_removal interpreted with exact rational knots and symbolic control points.
+    KI3: inserting u r times gives exactly r repetitions of Boehm's single insertion (Q_i = a_i P_i + (1 - a_i) P_{i-1},
+    a_i = (u - u_i) / (u_{i+p} - u_i) on k-p+1 .. k-s), for every span, existing multiplicity and admissible count.
+    KR3: removing t of the r copies just inserted gives exactly the net with r - t copies inserted (t = r: the original net), the
+    removability test being decided exactly (the two candidate points are identical polynomials)."""
+    from fractions import Fraction as F
+    from .skel import Sym
+    from .poly import Poly
+
+    def boehm(P, kv, p, u):
+        k = max(i for i in range(len(kv) - 1) if kv[i] <= u < kv[i + 1])
+        s = sum(1 for x in kv if x == u)
+        Q = []
+        for i in range(len(P) + 1):
+            if i <= k - p:
+                Q.append(list(P[i]))
+            elif i >= k - s + 1:
+                Q.append(list(P[i - 1]))
+            else:
+                a = (u - kv[i]) / (kv[i + p] - kv[i])
+                Q.append([P[i][c] * a + P[i - 1][c] * (1 - a) for c in range(len(P[0]))])
+        return Q, sorted(kv + [u])
+
+    def same_net(got, want):
+        if not isinstance(got, list) or len(got) != len(want):
+            return '%r points, expected %d' % (len(got) if isinstance(got, list) else got, len(want))
+        for i, (g, w) in enumerate(zip(got, want)):
+            for c in range(len(w)):
+                s = _as_sym(g[c]) if isinstance(g, (list, tuple)) and len(g) > c else None
+                if s is None or not s.same(Sym(w[c])):
+                    return 'point %d[%d] is %s, expected %r' % (i, c, repr(g[c])[:120] if isinstance(g, (list, tuple)) and len(g) > c else g, w[c])
+        return None
+
+    def eqdist(sk, node, a, b):
+        sa_, sb_ = [_as_sym(x) for x in a], [_as_sym(x) for x in b]
+        if any(x is None for x in sa_ + sb_):
+            raise Violation('KR3', 'the removability test compares %r and %r' % (a, b), node)
+        return 0.0 if all(x.same(y) for x, y in zip(sa_, sb_)) else 1.0
+    fins, frem = m.func('helpers.knot_insertion'), m.func('helpers.knot_removal')
+    fkv = m.func('helpers.knot_insertion_kv')
+    bad_i, bad_r, ni, nr = [], [], 0, 0
+    nets = [(2, [F(0)] * 3 + [F(1, 3), F(2, 3)] + [F(1)] * 3), (3, [F(0)] * 4 + [F(1, 4), F(1, 2), F(1, 2), F(3, 4)] + [F(1)] * 4), (2, [F(0)] * 3 + [F(2, 5)] + [F(2)] * 3)]
+    for p, kv in nets:
+        n = len(kv) - p - 1
+        P = [[Poly.atom('P%d_%d' % (i, c)) for c in range(2)] for i in range(n)]
+        interior = sorted(set(kv[p + 1:-(p + 1)]))
+        spans = sorted(set(kv[p:-p]))
+        mids = [(a + b) / 2 for a, b in zip(spans, spans[1:])]
+        for u in mids + interior:
+            s = sum(1 for x in kv if x == u)
+            k = max(i for i in range(len(kv) - 1) if kv[i] <= u < kv[i + 1])
+            for r in range(1, p - s + 1):
+                want, wkv = [list(row) for row in P], list(kv)
+                chain = [want]
+                for _ in range(r):
+                    want, wkv = boehm(want, wkv, p, u)
+                    chain.append(want)
+                if 'insert' in what:
+                    ni += 1
+                    sk = SK(m, {})          # nothing abstracted: the alpha helpers are interpreted on the rational knots
+                    sk.exact = True
+                    try:
+                        out = sk.call(fins, [p, list(kv), [[Sym(x) for x in row] for row in P], u], {'num': r, 's': s, 'span': k})
+                        why = same_net(out, want)
+                    except Violation as v:
+                        why = '%s %s' % (v.msg, v.where())
+                    except Unsupported as ex:
+                        raise AnalysisError('%s: interpreter met an unsupported construct: %s' % (fins.key, ex))
+                    if why:
+                        bad_i.append(((p, [str(x) for x in kv], str(u), r), why))
+                if 'remove' in what:
+                    for t in range(1, r + 1):
+                        nr += 1
+                        ab = {('linalg', 'point_distance'): Py(eqdist, 'point_distance')}
+                        sk = SK(m, ab)
+                        sk.exact = True
+                        try:
+                            out = sk.call(frem, [p, list(wkv), [[Sym(x) for x in row] for row in want], u], {'num': t})
+                            why = same_net(out, chain[r - t])
+                        except Violation as v:
+                            why = '%s %s' % (v.msg, v.where())
+                        except Unsupported as ex:
+                            raise AnalysisError('%s: interpreter met an unsupported construct: %s' % (frem.key, ex))
+                        if why:
+                            bad_r.append(((p, [str(x) for x in kv], str(u), r, t), why))
+    if 'refine' in what:
+        fref = m.func('helpers.knot_refinement')
+        bad_f, nf = [], 0
+        for p, kv in nets:
+            n = len(kv) - p - 1
+            P = [[Poly.atom('P%d_%d' % (i, c)) for c in range(2)] for i in range(n)]
+            for density in (1, 2):
+                nf += 1
+                sk = SK(m, {})
+                sk.exact = True
+                try:
+                    out = sk.call(fref, [p, list(kv), [[Sym(x) for x in row] for row in P]], {'density': density})
+                    why = None
+                    if not isinstance(out, (tuple, list)) or len(out) != 2:
+                        why = 'does not return (control points, knot vector)'
+                    else:
+                        cp, nkv = out
+                        nkv = [F(x) if not isinstance(x, F) else x for x in nkv]
+                        # documented request: the knots of kv[p:-p], densified `density` times by midpoints, each brought to multiplicity p
+                        kl = sorted(set(kv[p:-p]))
+                        for _ in range(density):
+                            kl = sorted(set(kl + [(a + b) / 2 for a, b in zip(kl, kl[1:])]))
+                        X = []
+                        for mk in kl:
+                            s_ = sum(1 for x in kv if x == mk)
+                            X += [mk] * max(p - s_, 0)
+                        want_kv = sorted(list(kv) + X)
+                        if nkv != want_kv:
+                            why = 'the refined knot vector is %s, the request gives %s' % ([str(x) for x in nkv], [str(x) for x in want_kv])
+                        else:
+                            want, wkv = [list(r) for r in P], list(kv)
+                            for x in sorted(X):
+                                want, wkv = boehm(want, wkv, p, x)
+                            why = same_net(cp, want)
+                except Violation as v:
+                    why = '%s %s' % (v.msg, v.where())
+                except Unsupported as ex:
+                    raise AnalysisError('%s: interpreter met an unsupported construct: %s' % (fref.key, ex))
+                if why:
+                    bad_f.append(((p, [str(x) for x in kv], density), why))
+        run.ob('KF3.refinement-exact', '%s :: %d (net, density) cases' % (fref.key, nf), not bad_f, 'refinement equals the single Boehm insertions of its new knots, as a polynomial identity' if not bad_f else
+               'degree %d, knots %s, density %d: %s   [%d of %d cases]' % (bad_f[0][0] + (bad_f[0][1], len(bad_f), nf)), 'geomdl/helpers.py:%d in %s' % (fref.node.lineno, fref.key))
+    if 'insert' in what:
+        run.ob('KI3.insertion-exact', '%s :: %d (net, parameter, count) cases' % (fins.key, ni), not bad_i, 'r-fold insertion equals r single Boehm insertions as a polynomial identity' if not bad_i else
+               'degree %d, knots %s, u = %s inserted %d times: %s   [%d of %d cases]' % (bad_i[0][0] + (bad_i[0][1], len(bad_i), ni)), 'geomdl/helpers.py:%d in %s' % (fins.node.lineno, fins.key))
+    if 'remove' in what:
+        run.ob('KR3.removal-inverts-insertion-exactly', '%s :: %d (net, parameter, inserted, removed) cases' % (frem.key, nr), not bad_r,
+               'removing t of r inserted copies gives the net with r - t copies, as a polynomial identity' if not bad_r else
+               'degree %d, knots %s, u = %s inserted %d times, %d removed: %s   [%d of %d cases]' % (bad_r[0][0] + (bad_r[0][1], len(bad_r), nr)), 'geomdl/helpers.py:%d in %s' % (frem.node.lineno, frem.key))
